@@ -315,3 +315,40 @@ def body_generic_history(first: int, second: int) -> int:
             b = k
     r = shared.check_generic_history(a, b, with_tree=True)
     return r if r else 0
+
+
+@obligation(pre="0 <= k <= 2 and 0 <= first <= 1", witnesses=(0,), timeout=120)
+def body_alias_tree_history(k: int, first: int) -> int:
+    """a union's error node lists its members in declaration order also when an equal-comparing builtin alias (the same union nested two levels down, members in the other order) was converted to before"""
+    if k == 0:
+        Ta, Tb, data = dict[str, list[t.Union[int, str]]], dict[str, list[t.Union[str, int]]], {'k': [1.5]}
+        path = ('k', 0)
+    elif k == 1:
+        Ta, Tb, data = list[list[t.Union[int, str]]], list[list[t.Union[str, int]]], [[1.5]]
+        path = (0, 0)
+    else:
+        Ta, Tb, data = tuple[list[t.Union[int, str]], int], tuple[list[t.Union[str, int]], int], ([1.5], 1)
+        path = (0, 0)
+    order = ((Ta, ('an int', 'a string')), (Tb, ('a string', 'an int')))
+    if first == 1:
+        order = (order[1], order[0])
+    for rnd in range(2):
+        for (T, want) in order:
+            conv = make_converter(T)
+            node = conv.collect_errors(data)
+            for p in path:
+                if node is None or not hasattr(node, 'children') or not isinstance(node.children, dict):
+                    return 21
+                node = node.children.get(p, node.children.get(str(p)))
+            if node is None or not hasattr(node, 'children') or len(node.children) != 2:
+                return 21
+            if node.children[0].expected != want[0] or node.children[1].expected != want[1]:
+                return 21
+    return 0
+
+
+for _k in range(3):
+    try:
+        body_alias_tree_history(_k, 0)
+    except Exception:
+        pass
